@@ -226,7 +226,7 @@ class Ctx:
             if h in seen:
                 continue
             seen.add(h)
-            d = os.path.join(ROOT, 'replays', self.pid)
+            d = os.path.join(ROOT if REPO == '/repo' else '/tmp/verif-dev-evidence', 'replays', self.pid)
             os.makedirs(d, exist_ok=True)
             path = os.path.join(d, h + '.json')
             json.dump(body, open(path, 'w'), indent=1)
@@ -241,7 +241,9 @@ class Ctx:
         st = self.stats.as_dict()
         cov = dict(
             states=max(st['paths'], 0),
-            transitions=st['forks'] + st['concretisations'],
+            transitions=st['decisions'],
+            transitions_note='branch decisions evaluated along the explored paths (forced ones included); '
+                             'forks=%d, concretisation sites=%d' % (st['forks'], st['concretisations']),
             traces_validated_against_impl=self.validated,
             samples=self.samples or ["(no sample recorded)"],
             obligations=st['obligations'], discharged=st['discharged'],
@@ -261,7 +263,7 @@ class Ctx:
         cov.update({k: v for k, v in self.extra_cov.items() if k != 'no_paths_ok'})
         ev = dict(property_id=self.pid, tier=self.tier, seed=self.seed, level=self.level, coverage=cov,
                   assumptions=self.assumptions, wall_s=round(time.time() - self.t0, 2), violations=violations)
-        d = os.path.join(ROOT, 'evidence')
+        d = os.path.join(ROOT, 'evidence') if REPO == '/repo' else '/tmp/verif-dev-evidence'   # dev runs on scratch trees
         os.makedirs(d, exist_ok=True)
         tmp = os.path.join(d, self.pid + '.json.tmp')
         json.dump(ev, open(tmp, 'w'), indent=1, default=str)
